@@ -79,6 +79,14 @@ pub fn battery(e: &Envelope, other: &Envelope, keys: &Keys) -> Vec<(String, Stri
     t!("compress", e.compress()); t!("uncompress", e.uncompress()); t!("compress_subject", e.compress_subject()); t!("uncompress_subject", e.uncompress_subject());
     t!("encrypt_subject", e.encrypt_subject(&keys.sym)); t!("decrypt_subject", e.decrypt_subject(&keys.sym)); t!("decrypt", e.decrypt(&keys.sym));
     t!("encrypt", if !(e.subject().is_encrypted() || e.subject().is_elided()) || e.is_node() { e.encrypt(&keys.sym) } else { e.clone() });
+    // an assertion replaced by an equal-digest form of itself (elided, compressed) and by itself; removed and re-added
+    for a in e.assertions().into_iter().take(3) {
+        t!("replace_assertion(a, a.elide())", e.replace_assertion(a.clone(), a.elide()));
+        t!("replace_assertion(a, a)", e.replace_assertion(a.clone(), a.clone()));
+        if let Ok(z) = a.compress() { t!("replace_assertion(a, a.compress())", e.replace_assertion(a.clone(), z)); }
+        t!("remove+add", e.remove_assertion(a.clone()).add_assertion_envelope(a.clone()));
+        t!("replace_assertion(a, non-assertion)", e.replace_assertion(a.clone(), Envelope::new("x")));
+    }
     // salt / types / attachments
     t!("add_salt", e.add_salt()); t!("add_salt_with_len", e.add_salt_with_len(8)); t!("add_salt_with_len(7)", e.add_salt_with_len(7)); t!("add_salt_in_range", e.add_salt_in_range(8..=10));
     t!("add_type", e.add_type("T")); t!("types", e.types()); t!("get_type", e.get_type()); t!("has_type", e.has_type(&known_values::SEED_TYPE)); t!("has_type_envelope", e.has_type_envelope("T"));
